@@ -33,8 +33,11 @@ let parse_rule r =
     { r_pre = nat_of_int (int_of_string pre);
       r_pat = List.map gids (split ',' items);
       r_acts = List.map (fun al -> if al = "-" then [] else List.map parse_act (split '&' al)) (split ',' acts);
-      r_con = (match rest with
-               | [c] when String.length c > 2 && c.[0] = 'c' ->
+      r_ret = (match List.filter (fun c -> String.length c > 1 && c.[0] = 'r') rest with
+               | [c] -> z_of_int (int_of_string (String.sub c 1 (String.length c - 1)))
+               | _ -> Z0);
+      r_con = (match List.filter (fun c -> String.length c > 2 && c.[0] = 'c') rest with
+               | [c] ->
                  (* c<item><l|g|e><value> *)
                  let k = ref 1 in while !k < String.length c && c.[!k] >= '0' && c.[!k] <= '9' do incr k done;
                  Some { c_item = nat_of_int (int_of_string (String.sub c 1 (!k - 1)));
@@ -42,7 +45,7 @@ let parse_rule r =
                         c_val = z_of_int (int_of_string (String.sub c (!k + 1) (String.length c - !k - 1))) }
                | _ -> None) }
   | _ -> failwith "rule"
-let parse_pass p = match split ':' p with [_; rs] -> List.map parse_rule (split ';' rs) | _ -> failwith "pass"
+let parse_pass p = match split ':' p with [ml; rs] -> (nat_of_int (int_of_string ml), List.map parse_rule (split ';' rs)) | _ -> failwith "pass"
 let () =
   try while true do
     let line = input_line stdin in
@@ -53,7 +56,7 @@ let () =
          let at = Array.of_list (List.map int_of_string (split ',' advs)) in
          let adv g = let i = int_of_n g in z_of_int (if i < Array.length at then at.(i) else 0) in
          let l0 = List.map (fun x -> let g = n_of_int (int_of_string x) in mkslot g (adv g) Z0) (List.filter (fun x -> x <> "") (split ',' input)) in
-         let out = run_passes adv (nat_of_int (int_of_string nsub)) passes l0 in
+         let out = run_passes_adj adv (nat_of_int (int_of_string nsub)) passes l0 in
          let (fin, ps) = positions out in
          let tbl = Hashtbl.create 16 in
          List.iter (fun (i, (x, y)) -> Hashtbl.replace tbl (int_of_n i) (int_of_z x, int_of_z y)) ps;
